@@ -21,8 +21,12 @@
 //	          satisfy it); n >= 2^53: only "round trip never exceeds the original"
 //	wrap   0 <= n, exact result does not fit int64   -> NOT asserted, counted; the int64 API cannot
 //	          represent the result (see /verif/sensitivity/C39.md and the report)
-//	neg    n < 0                                     -> NOT asserted (contracts reject non-positive
-//	          amounts; big.Int.Div floors, so magnitudes of negatives may grow)
+//	neg    n < 0, exact (floor) result fits int64     -> asserted: single conversion == math/big floor
+//	          reference; SIGNED round trip <= n (floor division never creates value, the
+//	          magnitude of a negative may grow), round trip == n when the target precision
+//	          is at least the source one. The round trip part is skipped (counted) when
+//	          the way back does not fit int64.
+//	          n < 0 with a result below MinInt64 belongs to "wrap".
 package c39
 
 import (
@@ -74,10 +78,10 @@ func fitsInt64(x *big.Int) bool { return x.Cmp(bigMinI) >= 0 && x.Cmp(bigMaxI) <
 // class of converting n (>= 0 or < 0) with mathematically exact result r.
 func classify(n int64, r *big.Int) string {
 	switch {
-	case n < 0:
-		return "neg"
 	case !fitsInt64(r):
 		return "wrap"
+	case n < 0:
+		return "neg"
 	case n < lim53 && r.Cmp(bigLim53) < 0:
 		return "core"
 	}
@@ -88,6 +92,17 @@ func classify(n int64, r *big.Int) string {
 // around the points where n*10^|p-8| crosses 2^53 and 2^63, uniform in
 // [0, 2^53), uniform int64, and realistic GAS amounts (<= 9000 GAS).
 func amountGen(p int) *rapid.Generator[int64] {
+	return rapid.Custom(func(t *rapid.T) int64 {
+		v := absAmountGen(p).Draw(t, "v")
+		// negative twins of every boundary class (signed relations are asserted for them too)
+		if v > 0 && rapid.IntRange(0, 4).Draw(t, "negate") == 0 {
+			v = -v
+		}
+		return v
+	})
+}
+
+func absAmountGen(p int) *rapid.Generator[int64] {
 	return rapid.Custom(func(t *rapid.T) int64 {
 		exp := p - 8
 		if exp < 0 {
@@ -159,10 +174,29 @@ func checkOne(rec *ev.Recorder, d dir, p int, n int64) (string, string) {
 
 	switch cls {
 	case "neg":
+		// signed relations hold for negative amounts too (floor division)
+		if exact.Cmp(big.NewInt(got)) != 0 {
+			return cls, fmt.Sprintf("%s(p=%d, n=%d) = %d, floor reference %s [class neg]", d.name, p, n, got, exact)
+		}
+		exactBack := refConvert(to, from, exact)
+		if !fitsInt64(exactBack) {
+			rec.Label("neg:way-back-exceeds-int64(not asserted)")
+			return cls, ""
+		}
+		rt := d.back(c, got)
+		if rt > n {
+			return cls, fmt.Sprintf("round trip %s(p=%d): %d -> %d -> %d creates value (signed)", d.name, p, n, got, rt)
+		}
+		if to >= from && rt != n {
+			return cls, fmt.Sprintf("round trip %s(p=%d): %d -> %d -> %d must be exact (target precision %d >= source %d)", d.name, p, n, got, rt, to, from)
+		}
+		if exactBack.Cmp(big.NewInt(rt)) != 0 {
+			return cls, fmt.Sprintf("round trip %s(p=%d): %d -> %d -> %d, floor reference %s", d.name, p, n, got, rt, exactBack)
+		}
 		return cls, ""
 	case "wrap":
 		// the exact result needs more than 63 bits: the int64 API cannot return it.
-		if n < lim53 {
+		if n >= 0 && n < lim53 {
 			rec.Label("wrap-with-arg<2^53")
 			if got < 0 {
 				rec.Label("wrap-with-arg<2^53:negative-result")
@@ -214,14 +248,14 @@ func TestC39Converter(t *testing.T) {
 		d := dirs[di]
 		cls, msg := checkOne(rec, d, p, n)
 		scaled := p != 8 && n != 0
-		rec.Case((cls == "core" || cls == "wide") && scaled, fmt.Sprintf("%d|%d|%d", di, p, n),
+		rec.Case(cls != "wrap" && scaled, fmt.Sprintf("%d|%d|%d", di, p, n),
 			"class:"+cls, d.name, fmt.Sprintf("p=%02d", p))
-		if cls == "core" && d.from(p) > d.to(p) && scaled {
+		if (cls == "core" || cls == "neg") && d.from(p) > d.to(p) && scaled {
 			f := pow10(d.from(p) - d.to(p))
 			if new(big.Int).Mod(big.NewInt(n), f).Sign() != 0 {
-				rec.Label("core:lossy-division")
+				rec.Label(cls + ":lossy-division")
 			} else {
-				rec.Label("core:exact-division")
+				rec.Label(cls + ":exact-division")
 			}
 		}
 		if rec.WantSample() && cls == "core" && scaled {
@@ -274,7 +308,7 @@ func TestC39Boundaries(t *testing.T) {
 					}
 					n := y.Int64()
 					cls, msg := checkOne(rec, d, p, n)
-					rec.Case((cls == "core" || cls == "wide") && p != 8 && n != 0, fmt.Sprintf("%d|%d|%d", di, p, n), "class:"+cls)
+					rec.Case(cls != "wrap" && p != 8 && n != 0, fmt.Sprintf("%d|%d|%d", di, p, n), "class:"+cls)
 					if msg != "" {
 						t.Fatalf("%s", msg)
 					}
@@ -299,22 +333,19 @@ func TestC39Convert(t *testing.T) {
 		}
 		n := amountGen(p).Draw(t, "n")
 		neg := n < 0
-		rec.Case(!neg && from != to && n != 0, fmt.Sprintf("%d|%d|%d", from, to, n), map[bool]string{true: "convert:neg", false: "convert:nonneg"}[neg])
+		rec.Case(from != to && n != 0, fmt.Sprintf("%d|%d|%d", from, to, n), map[bool]string{true: "convert:neg", false: "convert:nonneg"}[neg])
 		bn := big.NewInt(n)
 		got := precision.Convert(uint32(from), uint32(to), bn)
 		if bn.Cmp(big.NewInt(n)) != 0 {
 			t.Fatalf("Convert(%d,%d,%d) modified its argument: %s", from, to, n, bn)
 		}
-		if neg {
-			return
-		}
 		exact := refConvert(from, to, big.NewInt(n))
 		if got.Cmp(exact) != 0 {
-			t.Fatalf("Convert(%d,%d,%d) = %s, exact %s", from, to, n, got, exact)
+			t.Fatalf("Convert(%d,%d,%d) = %s, floor reference %s", from, to, n, got, exact)
 		}
 		back := precision.Convert(uint32(to), uint32(from), got)
-		if back.Cmp(big.NewInt(n)) > 0 || back.Sign() < 0 {
-			t.Fatalf("Convert round trip %d -> %s -> %s creates value (from=%d to=%d)", n, got, back, from, to)
+		if back.Cmp(big.NewInt(n)) > 0 || (!neg && back.Sign() < 0) {
+			t.Fatalf("Convert round trip %d -> %s -> %s creates value / changes sign (from=%d to=%d)", n, got, back, from, to)
 		}
 		if to >= from && back.Cmp(big.NewInt(n)) != 0 {
 			t.Fatalf("Convert round trip %d -> %s -> %s must be exact (from=%d to=%d)", n, got, back, from, to)
